@@ -9,6 +9,8 @@ import (
 	"github.com/henrylee2cn/erpc/v6/mixer/websocket"
 	"github.com/henrylee2cn/erpc/v6/mixer/websocket/jsonSubProto"
 	"github.com/henrylee2cn/erpc/v6/mixer/websocket/pbSubProto"
+	wsx "github.com/henrylee2cn/erpc/v6/mixer/websocket/websocket"
+	"github.com/henrylee2cn/erpc/v6/socket"
 
 	"simrt"
 	"verif/simnet"
@@ -73,3 +75,42 @@ func (e *Env) ServeWS(p erpc.Peer, addr string, proto string) *simnet.Listener {
 	})
 	return l
 }
+
+// NewWSPair performs the websocket handshake between the two ends of a simulated connection (real client
+// and server handshake code) and returns raw peers speaking the sub-protocol inside websocket frames.
+func NewWSPair(e *Env, ca, cb *simnet.Conn, proto string) (*RawPeer, *RawPeer) {
+	var srvSock *RawPeer
+	done := false
+	handler := wsx.Handler(func(c *wsx.Conn) {
+		srvSock = &RawPeer{Conn: cb, Sock: socketNew(c, websocket.NewWsProtoFunc(WSSubProto(proto)))}
+		done = true
+		simrt.WaitCond(func() bool { return cb.IsClosed() || cb.IsBroken() })
+	})
+	simrt.GoNamed("ws-server-handshake", func() {
+		simrt.SetDaemon()
+		br := bufio.NewReader(cb)
+		req, err := http.ReadRequest(br)
+		if err != nil {
+			done = true
+			return
+		}
+		req.RemoteAddr = cb.RemoteAddr().String()
+		w := &hijackWriter{conn: cb, brw: bufio.NewReadWriter(br, bufio.NewWriter(cb)), hdr: http.Header{}}
+		handler.ServeHTTP(w, req)
+	})
+	cfg, err := wsx.NewConfig("ws://"+cb.LocalAddr().String()+"/", "ws://"+ca.LocalAddr().String()+"/")
+	if err != nil {
+		return nil, nil
+	}
+	cc, err := wsx.NewClient(cfg, ca)
+	if err != nil {
+		return nil, nil
+	}
+	simrt.WaitCond(func() bool { return done })
+	if srvSock == nil {
+		return nil, nil
+	}
+	return &RawPeer{Conn: ca, Sock: socketNew(cc, websocket.NewWsProtoFunc(WSSubProto(proto)))}, srvSock
+}
+
+func socketNew(c net.Conn, pf erpc.ProtoFunc) socket.Socket { return socket.NewSocket(c, pf) }
